@@ -84,6 +84,8 @@ pub enum Ev {
     Watchdog,
     /// a future busy-waited on the clock without yielding (virtual time had to be forced on)
     ClockSpin,
+    /// a read found the inbound stream stalled at a gate (the rest of the data has not arrived yet)
+    GateHit { conn: usize, offset: usize },
 }
 
 #[derive(Clone, Debug, Serialize)]
@@ -136,6 +138,14 @@ pub struct Conn {
     pub ended: bool,
     /// the transport reported an error / EOF at least once
     pub faulted: bool,
+    /// inbound stream stalls: bytes from `offset` on arrive only after `blocks` reads found nothing
+    pub gates: Vec<Gate>,
+}
+
+#[derive(Clone, Copy, Debug, Serialize)]
+pub struct Gate {
+    pub offset: usize,
+    pub blocks: u8,
 }
 
 /// Broker-side session state that survives connections.
@@ -218,6 +228,7 @@ impl World {
             in_enq: 0,
             in_read: 0,
             scheduled: Vec::new(),
+            gates: Vec::new(),
             held: Vec::new(),
             close_after_drain: false,
             n_io: 0,
@@ -454,7 +465,7 @@ impl World {
                     let p = if dup {
                         SPacket::PubRec { pid, reason: None, props: None }
                     } else {
-                        self.ack_pkt(conn, 5, pid, &[0x80, 0x83, 0x87, 0x90, 0x97, 0x99])
+                        self.ack_pkt(conn, 5, pid, &[0x80, 0x83, 0x87, 0x90, 0x97, 0x99, 0x10, 0x10])
                     };
                     let ok = matches!(&p, SPacket::PubRec { reason, .. } if reason.unwrap_or(0) < 0x80);
                     if ok && !dup {
@@ -736,6 +747,19 @@ impl World {
         }
         let now = vtime::now();
         let c = &mut self.conns[conn];
+        while c.gates.first().is_some_and(|g| g.offset < c.in_read || g.blocks == 0) {
+            c.gates.remove(0);
+        }
+        let gate_room = c.gates.first().map(|g| g.offset - c.in_read);
+        if gate_room == Some(0) && !c.inq.is_empty() {
+            let offset = c.in_read;
+            c.gates[0].blocks -= 1;
+            self.pend_why = Some(PendWhy::ReadEmpty);
+            self.ev(Ev::GateHit { conn, offset });
+            self.ev(Ev::Io { conn, kind: IoKind::Read, req: buf.len(), ans: IoAns::Pending(PendWhy::ReadEmpty), t: now });
+            return Poll::Pending;
+        }
+        let c = &mut self.conns[conn];
         if c.inq.is_empty() {
             if c.close_after_drain {
                 self.io_done(conn, IoKind::Read, buf.len(), IoAns::Eof);
@@ -752,7 +776,7 @@ impl World {
             });
             return Poll::Pending;
         }
-        let avail = buf.len().min(c.inq.len());
+        let avail = buf.len().min(c.inq.len()).min(gate_room.unwrap_or(usize::MAX));
         let k = if !c.policy.read_chunks.is_empty() {
             c.policy.read_chunks.remove(0).max(1).min(avail)
         } else {
